@@ -33,62 +33,91 @@ def corr2 (thld h : Nat) : Nat := if h > thld then h - 2 else h
 /-- `VHandleCorrection` / `CHandleCorrection`: `if (h > thld) h -= 1` -/
 def corr1 (thld h : Nat) : Nat := if h > thld then h - 1 else h
 
+/-! Each `delete_*_core` is: (fast mode) swap the victim to the last slot; unlink it from the
+    caches; then either flag it (deferred) or erase the slot and renumber. -/
+
+/-- cc:1375-1393: clear the cell's halfface links, re-order the fans of its edges -/
+def unlinkCell (k : Kernel) (h : Nat) : Kernel :=
+  if k.fBU then
+    let hfs := k.cellAt h
+    let k1 := { k with incCell := hfs.foldl (fun ic hf => if ic.getD hf none == some h then ic.set hf none else ic) k.incCell }
+    if k1.eBU then (toSet ((hfs.flatMap k.hfHes).map eOf)).foldl reorder k1 else k1
+  else k
+
+def flagCell (k : Kernel) (h : Nat) : Kernel := { k with nDelC := k.nDelC + 1, cDel := k.cDel.set h true }
+
+/-- cc:1407-1427 -/
+def eraseCell (k : Kernel) (h : Nat) : Kernel :=
+  { k with incCell := if !k.fast && k.fBU then k.incCell.map (·.map (corr1 h)) else k.incCell,
+           cells := k.cells.eraseIdx h, cDel := k.cDel.eraseIdx h, props := cellDeleted k.props h }
+
 /-- cc:1359-1429 -/
 def deleteCellCore (k : Kernel) (h0 : Nat) : Kernel :=
-  let (k, h) := if k.fast && !k.deferred then (k.swapCell h0 (k.nC - 1), k.nC - 1) else (k, h0)
-  let k := if k.fBU then
-      let hfs := k.cellAt h
-      let k1 := { k with incCell := hfs.foldl (fun ic hf => if ic.getD hf none == some h then ic.set hf none else ic) k.incCell }
-      let es := toSet ((hfs.flatMap k.hfHes).map eOf)
-      if k1.eBU then es.foldl reorder k1 else k1
-    else k
-  if k.deferred then
-    { k with nDelC := k.nDelC + 1, cDel := k.cDel.set h true }
-  else
-    let k := if !k.fast && k.fBU then
-        { k with incCell := k.incCell.map (·.map (corr1 h)) } else k
-    { k with cells := k.cells.eraseIdx h, cDel := k.cDel.eraseIdx h, props := cellDeleted k.props h }
+  let fastNow := k.fast && !k.deferred
+  let k1 := if fastNow then k.swapCell h0 (k.nC - 1) else k
+  let h := if fastNow then k.nC - 1 else h0
+  let k2 := k1.unlinkCell h
+  if k2.deferred then k2.flagCell h else k2.eraseCell h
+
+/-- one step of cc:1222-1243: drop the two halffaces from the lists of one halfedge, re-order -/
+def unlinkFaceStep (h : Nat) (k : Kernel) (he : Nat) : Kernel :=
+  let k1 := { k with incHfs := (k.incHfs.modify he (removeAll · (heOf h 0))).modify (opp he) (removeAll · (heOf h 1)) }
+  if k1.fBU then k1.reorder (eOf he) else k1
+
+def unlinkFace (k : Kernel) (h : Nat) : Kernel :=
+  if k.eBU then (k.faceAt h).foldl (unlinkFaceStep h) k else k
+
+def flagFace (k : Kernel) (h : Nat) : Kernel := { k with nDelF := k.nDelF + 1, fDel := k.fDel.set h true }
+
+/-- remove both halffaces of face `h` from a cell definition and shift the handles above -/
+def fixHalfList (h : Nat) (l : List Nat) : List Nat :=
+  ((l.filter (· != heOf h 0)).filter (· != heOf h 1)).map (corr2 (heOf h 1))
+
+/-- cc:1258-1337 -/
+def eraseFace (k : Kernel) (h : Nat) : Kernel :=
+  let cells := if !k.fast then
+      (if k.fBU then toSet ((k.incCell.drop (heOf h 0)).filterMap id) else k.liveCells).foldl
+        (fun cl c => cl.modify c (fixHalfList h)) k.cells
+    else k.cells
+  { k with cells := cells,
+           incCell := if k.fBU then (k.incCell.eraseIdx (heOf h 1)).eraseIdx (heOf h 0) else k.incCell,
+           incHfs := if !k.fast && k.eBU then k.incHfs.map (·.map (corr2 (heOf h 1))) else k.incHfs,
+           faces := k.faces.eraseIdx h, fDel := k.fDel.eraseIdx h, props := faceDeleted k.props h }
 
 /-- cc:1206-1340 -/
 def deleteFaceCore (k : Kernel) (h0 : Nat) : Kernel :=
-  let (k, h) := if k.fast && !k.deferred then (k.swapFace h0 (k.nF - 1), k.nF - 1) else (k, h0)
-  let k := if k.eBU then
-      (k.faceAt h).foldl (fun k he =>
-        let inc := (k.incHfs.modify he (removeAll · (heOf h 0))).modify (opp he) (removeAll · (heOf h 1))
-        let k1 := { k with incHfs := inc }
-        if k1.fBU then k1.reorder (eOf he) else k1) k
-    else k
-  if k.deferred then
-    { k with nDelF := k.nDelF + 1, fDel := k.fDel.set h true }
-  else
-    let fix := fun (hfs : List Nat) => ((hfs.filter (· != heOf h 0)).filter (· != heOf h 1)).map (corr2 (heOf h 1))
-    let k := if !k.fast then
-        let cs := if k.fBU then toSet ((k.incCell.drop (heOf h 0)).filterMap id) else k.liveCells
-        { k with cells := cs.foldl (fun cl c => cl.modify c fix) k.cells }
-      else k
-    let k := if k.fBU then { k with incCell := (k.incCell.eraseIdx (heOf h 1)).eraseIdx (heOf h 0) } else k
-    let k := if !k.fast && k.eBU then { k with incHfs := k.incHfs.map (·.map (corr2 (heOf h 1))) } else k
-    { k with faces := k.faces.eraseIdx h, fDel := k.fDel.eraseIdx h, props := faceDeleted k.props h }
+  let fastNow := k.fast && !k.deferred
+  let k1 := if fastNow then k.swapFace h0 (k.nF - 1) else k
+  let h := if fastNow then k.nF - 1 else h0
+  let k2 := k1.unlinkFace h
+  if k2.deferred then k2.flagFace h else k2.eraseFace h
+
+/-- cc:1057-1075 -/
+def unlinkEdge (k : Kernel) (h : Nat) : Kernel :=
+  if k.vBU then
+    { k with outHes := (k.outHes.modify (k.edgeAt h).1 (removeAll · (heOf h 0))).modify (k.edgeAt h).2 (removeAll · (heOf h 1)) }
+  else k
+
+def flagEdge (k : Kernel) (h : Nat) : Kernel := { k with nDelE := k.nDelE + 1, eDel := k.eDel.set h true }
+
+/-- cc:1090-1180 -/
+def eraseEdge (k : Kernel) (h : Nat) : Kernel :=
+  let faces := if !k.fast then
+      (if k.eBU then toSet (((k.incHfs.drop (heOf h 0)).flatten).map eOf) else k.liveFaces).foldl
+        (fun fl f => fl.modify f (fixHalfList h)) k.faces
+    else k.faces
+  { k with faces := faces,
+           incHfs := if k.eBU then (k.incHfs.eraseIdx (heOf h 1)).eraseIdx (heOf h 0) else k.incHfs,
+           outHes := if !k.fast && k.vBU then k.outHes.map (·.map (corr2 (heOf h 1))) else k.outHes,
+           edges := k.edges.eraseIdx h, eDel := k.eDel.eraseIdx h, props := edgeDeleted k.props h }
 
 /-- cc:1041-1183 -/
 def deleteEdgeCore (k : Kernel) (h0 : Nat) : Kernel :=
-  let (k, h) := if k.fast && !k.deferred then (k.swapEdge h0 (k.nE - 1), k.nE - 1) else (k, h0)
-  let k := if k.vBU then
-      let (v0, v1) := k.edgeAt h
-      let o := k.outHes.modify v0 (removeAll · (heOf h 0))
-      { k with outHes := o.modify v1 (removeAll · (heOf h 1)) }
-    else k
-  if k.deferred then
-    { k with nDelE := k.nDelE + 1, eDel := k.eDel.set h true }
-  else
-    let fix := fun (hes : List Nat) => ((hes.filter (· != heOf h 0)).filter (· != heOf h 1)).map (corr2 (heOf h 1))
-    let k := if !k.fast then
-        let fs := if k.eBU then toSet (((k.incHfs.drop (heOf h 0)).flatten).map eOf) else k.liveFaces
-        { k with faces := fs.foldl (fun fl f => fl.modify f fix) k.faces }
-      else k
-    let k := if k.eBU then { k with incHfs := (k.incHfs.eraseIdx (heOf h 1)).eraseIdx (heOf h 0) } else k
-    let k := if !k.fast && k.vBU then { k with outHes := k.outHes.map (·.map (corr2 (heOf h 1))) } else k
-    { k with edges := k.edges.eraseIdx h, eDel := k.eDel.eraseIdx h, props := edgeDeleted k.props h }
+  let fastNow := k.fast && !k.deferred
+  let k1 := if fastNow then k.swapEdge h0 (k.nE - 1) else k
+  let h := if fastNow then k.nE - 1 else h0
+  let k2 := k1.unlinkEdge h
+  if k2.deferred then k2.flagEdge h else k2.eraseEdge h
 
 /-- sequential relabeling loop of the cache-guided vertex shift (cc:965-978) -/
 def shiftVertsBU (k : Kernel) (h : Nat) : List (Nat × Nat) :=
@@ -96,17 +125,21 @@ def shiftVertsBU (k : Kernel) (h : Nat) : List (Nat × Nat) :=
     (k.outOf i).foldl (fun ed he =>
       ed.modify (eOf he) (fun e => (if e.1 == i then i - 1 else e.1, if e.2 == i then i - 1 else e.2))) ed) k.edges
 
+def flagVertex (k : Kernel) (h : Nat) : Kernel := { k with nDelV := k.nDelV + 1, vDel := k.vDel.set h true }
+
+/-- cc:961-1015 -/
+def eraseVertex (k : Kernel) (h : Nat) : Kernel :=
+  { k with edges := if k.vBU then k.shiftVertsBU h
+             else k.liveEdges.foldl (fun ed e => ed.modify e (fun p => (corr1 h p.1, corr1 h p.2))) k.edges,
+           outHes := if k.vBU then k.outHes.eraseIdx h else k.outHes,
+           nV := k.nV - 1, vDel := k.vDel.eraseIdx h, props := vertexDeleted k.props h }
+
 /-- cc:936-1018 -/
 def deleteVertexCore (k : Kernel) (h0 : Nat) : Kernel :=
-  let (k, h) := if k.fast && !k.deferred then (k.swapVertex h0 (k.nV - 1), k.nV - 1) else (k, h0)
-  if k.deferred then
-    { k with nDelV := k.nDelV + 1, vDel := k.vDel.set h true }
-  else
-    let edges := if k.vBU then k.shiftVertsBU h
-      else k.liveEdges.foldl (fun ed e => ed.modify e (fun p => (corr1 h p.1, corr1 h p.2))) k.edges
-    let k := { k with edges := edges }
-    let k := if k.vBU then { k with outHes := k.outHes.eraseIdx h } else k
-    { k with nV := k.nV - 1, vDel := k.vDel.eraseIdx h, props := vertexDeleted k.props h }
+  let fastNow := k.fast && !k.deferred
+  let k1 := if fastNow then k.swapVertex h0 (k.nV - 1) else k
+  let h := if fastNow then k.nV - 1 else h0
+  if k1.deferred then k1.flagVertex h else k1.eraseVertex h
 
 def deleteCell (k : Kernel) (c : Nat) : Kernel := k.deleteCellCore c
 
@@ -136,19 +169,20 @@ def gcSweep (k : Kernel) (n : Nat) (isDel : Kernel → Nat → Bool) (unflag : K
     (core : Kernel → Nat → Kernel) : Kernel :=
   (List.range n).reverse.foldl (fun k i => if isDel k i then core (unflag k i) i else k) k
 
+/-- the four sweeps of `collect_garbage` (cc:750-784), each followed by resetting its counter -/
+def gcCells (k : Kernel) : Kernel :=
+  { gcSweep k k.nC cDeleted (fun k i => { k with cDel := k.cDel.set i false }) deleteCellCore with nDelC := 0 }
+def gcFaces (k : Kernel) : Kernel :=
+  { gcSweep k k.nF fDeleted (fun k i => { k with fDel := k.fDel.set i false }) deleteFaceCore with nDelF := 0 }
+def gcEdges (k : Kernel) : Kernel :=
+  { gcSweep k k.nE eDeleted (fun k i => { k with eDel := k.eDel.set i false }) deleteEdgeCore with nDelE := 0 }
+def gcVerts (k : Kernel) : Kernel :=
+  { gcSweep k k.nV vDeleted (fun k i => { k with vDel := k.vDel.set i false }) deleteVertexCore with nDelV := 0 }
+
 /-- cc:743-788 -/
 def collectGarbage (k : Kernel) : Kernel :=
   if !k.deferred || !k.needsGC then k else
-  let k := { k with deferred := false }
-  let k := gcSweep k k.nC cDeleted (fun k i => { k with cDel := k.cDel.set i false }) deleteCellCore
-  let k := { k with nDelC := 0 }
-  let k := gcSweep k k.nF fDeleted (fun k i => { k with fDel := k.fDel.set i false }) deleteFaceCore
-  let k := { k with nDelF := 0 }
-  let k := gcSweep k k.nE eDeleted (fun k i => { k with eDel := k.eDel.set i false }) deleteEdgeCore
-  let k := { k with nDelE := 0 }
-  let k := gcSweep k k.nV vDeleted (fun k i => { k with vDel := k.vDel.set i false }) deleteVertexCore
-  let k := { k with nDelV := 0 }
-  { k with deferred := true }
+  { (gcVerts (gcEdges (gcFaces (gcCells { k with deferred := false })))) with deferred := true }
 
 /-- cc:1794-1800 -/
 def enableDeferred (k : Kernel) (b : Bool) : Kernel :=
@@ -200,14 +234,15 @@ def enableFBU (k : Kernel) (b : Bool) : Kernel :=
   let k := { k with fBU := b }
   if upd && k.eBU then k.reorderAll else k
 
-/-- hh:860-890.  `clearProps = true` detaches every storage (`clear_all_props`). -/
-def clear (k : Kernel) (clearProps : Bool) : Kernel :=
+/-- hh:860-890.  `clearProps = true` additionally makes every storage private and
+    non-persistent (`clear_all_props`); the storages stay tracked, so in both cases they are
+    resized to zero entities (mesh properties keep their single slot). -/
+def clear (k : Kernel) (_clearProps : Bool) : Kernel :=
   { k with nV := 0, edges := [], faces := [], cells := [],
            vDel := [], eDel := [], fDel := [], cDel := [],
            nDelV := 0, nDelE := 0, nDelF := 0, nDelC := 0,
            outHes := [], incHfs := [], incCell := [],
-           props := if clearProps then {} else
-             { (resizeC (resizeF (resizeE (resizeV k.props 0) 0) 0) 0) with m := k.props.m } }
+           props := resizeC (resizeF (resizeE (resizeV k.props 0) 0) 0) 0 }
 
 end Kernel
 end OVM
